@@ -185,6 +185,7 @@ type Life struct {
 	dead    bool
 	crashAt int // -1: none; else number of effect ops still allowed
 	Effects int // effect ops performed by this incarnation since ResetCount
+	stores  []int // indices (since ResetCount) of the effect ops that were store writes
 }
 
 func (w *World) NewLife(node string, inc int) *Life {
@@ -220,7 +221,22 @@ func (l *Life) CrashArmed() bool {
 func (l *Life) ResetCount() {
 	l.mu.Lock()
 	l.Effects = 0
+	l.stores = nil
 	l.mu.Unlock()
+}
+
+// NoteStore marks the effect op just performed as a durable store write.
+func (l *Life) NoteStore() {
+	l.mu.Lock()
+	l.stores = append(l.stores, l.Effects-1)
+	l.mu.Unlock()
+}
+
+// StoreOps returns the indices of the store writes among the effect ops since ResetCount.
+func (l *Life) StoreOps() []int {
+	l.mu.Lock()
+	defer l.mu.Unlock()
+	return append([]int{}, l.stores...)
 }
 
 func (l *Life) EffectCount() int {
